@@ -52,6 +52,14 @@ def gen_cases(seed, tier):
         for _ in range(4):
             x = {s: rng.choice([0.0, 1.0, 2.0, 3.0, 5.0, 7.0, G.dyadic(rng, 0, 9, 8), 0.5]) for s in spec["species"]}
             pts.append({"x": x, "V": rng.choice([0.25, 0.5, 1.0, 2.0, 4.0, round(rng.uniform(0.2, 5), 3)]), "t": 0.0})
+        # one parameter-dictionary OBJECT reused for several mass-action reactions with different reactants (deg = {"k": kdeg} handed to A -> 0 and
+        # B -> 0): each reaction keeps its own rate law and its own exported kinetic law (seeded changes S8_C01 / S8_C14, as S6_C06: the model
+        # wrote the implicit 'species' string into the caller's dictionary)
+        if rng.random() < 0.3:
+            ma_ = [rx for rx in spec["reactions"] if rx["type"] == "massaction" and "species" not in rx["params"]]
+            if len(ma_) >= 2:
+                for rx in ma_[1:]: rx["params"] = dict(ma_[0]["params"])
+                spec["shared_param_dicts"] = True
         cases.append({"spec": spec, "points": pts})
     return cases
 
